@@ -3,7 +3,7 @@ CONSTANTS MaxEdits = 2
  CfgIds = {"default", "sha256only"}
  UseCache = TRUE
  Flaw_Concat = TRUE
- Flaw_FgUnchanged = TRUE
+ Flaw_FgUnchanged = FALSE
  Menu = "quick"
  EmitAll = FALSE
 SPECIFICATION Spec
